@@ -62,6 +62,8 @@ type Task struct {
 	LastAcq uint64
 	// number of lock acquisitions by this task
 	Acqs int
+	// sequence number of the step in which this task last released a lock
+	LastRel uint64
 	// arbitrary harness data
 	Data any
 	held int
@@ -345,6 +347,7 @@ func (s *Sim) resume(t *Task) {
 	if t.hasRel {
 		s.released(t, t.relLock, t.relMode)
 		t.hasRel, t.relLock = false, nil
+		t.LastRel = s.Seq
 	}
 	if t.spawnFn != nil {
 		fn := t.spawnFn
@@ -786,3 +789,8 @@ func (t *Task) SetResult(v any) { t.Data = v }
 
 //go:norace
 func (t *Task) Result() any { return t.Data }
+
+// LocksHeld is the number of locks of the code under test currently held by tasks.
+//
+//go:norace
+func (s *Sim) LocksHeld() int { return len(s.locks) }
